@@ -1,5 +1,6 @@
 import Secp.Proofs.Bip32
 import Secp.Props.C03
+import Secp.Proofs.Slices
 /-
   Props/C12 — BIP32 child derivation matches the specification and commutes with neutering.
   Model: `Secp.Model.childWithIL`, `deriveWithIL`, `ExtKey.neuter`, `fromSeed` (hand-written mirrors of
@@ -63,5 +64,14 @@ theorem neuter_commutes_unconditional (O : Oracles) (k c : ExtKey) (i il : Nat) 
     (h : childWithIL O k i = .ok (il, c)) (hne : beNat c.keyData ≠ 0) :
     childWithIL O k.neuter i = .ok (il, c.neuter) :=
   neuter_commutes Secp.Props.C03.pointSpec O k c i il hk hi h hne
+
+
+/-- Limb level of this property's own functions: the REGENERATED sliced field programs (tools/gotr pass T2s,
+    `Secp.Gen.Slices`) of `ChildWithIL` (public-parent branch: parse, add, rebuild the key) and asFV pass the abstract interpreter on every path — no magnitude overflow, every
+    comparison / parity test / serialisation reads a normalised value, every callee's precondition holds,
+    every returned key or point is normalised.  Together with C05 (kernels) and C16 (`absPath_sound`,
+    `contracts_justified`) this is what makes the value-level model above faithful to the limb code. -/
+theorem bip32_field_arithmetic_exact :
+    Secp.Proofs.Slices.entriesOK ["github.com/ModChain/secp256k1/ecckd.ExtendedKey.ChildWithIL", "github.com/ModChain/secp256k1/ecckd.asFV"] = true := by decide +kernel
 
 end Secp.Props.C12
